@@ -762,12 +762,12 @@ fn mutations_for(tier: Tier, h: u64, orig: u8) -> Vec<u8> {
 pub fn worker(ctx: &WorkerCtx) -> WorkerResult {
     let images = match ctx.tier {
         Tier::Quick => 64u64,
-        Tier::Thorough => 320,
+        Tier::Thorough => 160,
     };
     let images = std::env::var("VERIF_CASES").ok().and_then(|s| s.parse().ok()).unwrap_or(images);
     let budget_per_image: usize = match ctx.tier {
         Tier::Quick => 2500,
-        Tier::Thorough => usize::MAX,
+        Tier::Thorough => 60_000,
     };
     let known = open_findings_for("C15");
     let res = RefCell::new(WorkerResult::default());
@@ -819,7 +819,18 @@ pub fn worker(ctx: &WorkerCtx) -> WorkerResult {
         for (path, data) in &img.files {
             let n = data.0.len();
             let is_table = path.ends_with(".rdb");
+            // a log of tens of kilobytes (the multi-fragment record, the trailer-aligned block): every
+            // offset near a fragment start or end and near a block boundary, every 23rd offset of the
+            // long payloads (all fragment headers are added below in any case)
+            let frags: Vec<(usize, usize, u8)> = if !is_table && n > 6000 { log_fragments(&data.0) } else { vec![] };
             for off in 0..n {
+                if !frags.is_empty() {
+                    let near_edge = frags.iter().any(|(o, l, _)| (off >= *o && off < o + 64) || (off + 16 >= o + 7 + l && off < o + 7 + l));
+                    let near_block = off % 32768 < 16 || off % 32768 >= 32768 - 16;
+                    if !near_edge && !near_block && mix(ch, off as u64) % 23 != 0 {
+                        continue;
+                    }
+                }
                 let h = mix(ch, mix(path.len() as u64 ^ n as u64, off as u64));
                 if tier == Tier::Quick && is_table && n - off > 220 && off % 3 != (h % 3) as usize && off % 3 != 0 {
                     continue;
